@@ -21,6 +21,9 @@ import (
 
 var errDivisionByZero = errors.New("division by zero")
 
+// maxRegexpRepeat is the largest repeat count the regexp package accepts.
+const maxRegexpRepeat = 1000
+
 // A FilterDictionary holds filters.
 type FilterDictionary interface {
 	AddFilter(string, any)
@@ -239,6 +242,14 @@ func AddStandardFilters(fd FilterDictionary) { //nolint: gocyclo
 	fd.AddFilter("truncate", func(s string, length func(int) int, ellipsis func(string) string) string {
 		n := length(50)
 		el := ellipsis("...")
+		if n-len(el) > maxRegexpRepeat || len(el) > maxRegexpRepeat {
+			// the pattern below cannot express such counts
+			rs := []rune(s)
+			if len(rs) <= n {
+				return s
+			}
+			return string(rs[:n-len(el)]) + el
+		}
 		// runes aren't bytes; don't use slice
 		re := regexp.MustCompile(fmt.Sprintf(`^(.{%d})..{%d,}`, n-len(el), len(el)))
 		return re.ReplaceAllString(s, `$1`+el)
@@ -246,6 +257,14 @@ func AddStandardFilters(fd FilterDictionary) { //nolint: gocyclo
 	fd.AddFilter("truncatewords", func(s string, length func(int) int, ellipsis func(string) string) string {
 		el := ellipsis("...")
 		n := length(15)
+		if n > maxRegexpRepeat {
+			// the pattern below cannot express such counts
+			m := firstWords(s, n)
+			if m == "" {
+				return s
+			}
+			return m + el
+		}
 		re := regexp.MustCompile(fmt.Sprintf(`^(?:\s*\S+){%d}`, n))
 		m := re.FindString(s)
 		if m == "" {
@@ -271,6 +290,27 @@ func AddStandardFilters(fd FilterDictionary) { //nolint: gocyclo
 	fd.AddFilter("type", func(value any) string {
 		return fmt.Sprintf("%T", value)
 	})
+}
+
+// firstWords returns the prefix of s that holds its first n whitespace-separated words
+// (what `^(?:\s*\S+){n}` matches), or "" if s has fewer than n words.
+func firstWords(s string, n int) string {
+	isSpace := func(c byte) bool { return c == ' ' || c == '\t' || c == '\n' || c == '\f' || c == '\r' }
+	pos := 0
+	for range n {
+		i := pos
+		for i < len(s) && isSpace(s[i]) {
+			i++
+		}
+		if i == len(s) {
+			return ""
+		}
+		for i < len(s) && !isSpace(s[i]) {
+			i++
+		}
+		pos = i
+	}
+	return s[:pos]
 }
 
 func joinFilter(a []any, sep func(string) string) any {
